@@ -142,7 +142,7 @@ class AbstractDataset:
         """
         The maximum value of signal-to-noise_maps in an image pixel in the image's signal-to-noise_maps mappers.
         """
-        return np.max(self.signal_to_noise_map)
+        return np.nanmax(self.signal_to_noise_map)
 
     @cached_property
     def noise_covariance_matrix_inv(self) -> np.ndarray:
